@@ -244,6 +244,8 @@ def gen_plan(rng, run_index, tier, opts):
     if rng.random() < 0.4:
         n_proc = 1 + sum(1 for s_ in steps if s_["op"] == "restart" or s_.get("fault") == "crash")
         plan["proc_tz"] = [rng.choice(PROC_ZONES) for _ in range(n_proc)]
+    if rng.random() < 0.1:
+        plan["fname_as_path"] = True
     if rng.random() < 0.25:
         # the locale's encoding (what open() uses when none is named), per process like the zone
         n_proc = 1 + sum(1 for s_ in steps if s_["op"] == "restart" or s_.get("fault") == "crash")
@@ -291,6 +293,10 @@ class Run:
         self.live_grid = plan["home"] if plan.get("own_grid") else None   # grid id the live portfolio holds
         self.pgrid = {g: p for g, p in plan["probes"]}
         self.fname = plan.get("fname", "obj.json")      # the name the user saves under and loads from
+        self.fname_arg = self.fname
+        if plan.get("fname_as_path"):
+            import pathlib
+            self.fname_arg = pathlib.PurePosixPath(self.fname)      # a path object instead of a string
         self.text = None           # last string form
         self.text_snap = None
         self.acked_snap = None     # reference for the last acknowledged file save
@@ -521,7 +527,7 @@ class Run:
             raised = None
             with self.disk.mounted(faults) as d:
                 try:
-                    eao.serialization.to_json(self.live, self.fname)
+                    eao.serialization.to_json(self.live, self.fname_arg)
                 except seams.SimCrash:
                     crashed = True
                 except OSError as e:
@@ -695,10 +701,10 @@ class Run:
                 rfj_g = st.get("rfj_grid")
                 if path == "run_from_json" and refs and (rfj_g or getattr(refs[0], "_verif_grid_id", None) is not None):
                     rg = rfj_g or refs[0]._verif_grid_id
-                    loaded = eao.serialization.load_from_json(file_name=self.fname)
+                    loaded = eao.serialization.load_from_json(file_name=self.fname_arg)
                     try:
                         kwr = {"timegrid": self.B.grid(rfj_g)} if rfj_g else {}
-                        out = eao.serialization.run_from_json(file_name_in=self.fname, prices=self.B.prices(self.pgrid[rg]), **kwr)
+                        out = eao.serialization.run_from_json(file_name_in=self.fname_arg, prices=self.B.prices(self.pgrid[rg]), **kwr)
                     except Exception as e2:
                         out = ("raise", type(e2).__name__)
                     ran = rg
@@ -708,7 +714,7 @@ class Run:
                     loaded = eao.serialization.load_from_json(txt)
                     self.probes["file_loaded_as_text"] = self.probes.get("file_loaded_as_text", 0) + 1
                 else:
-                    loaded = eao.serialization.load_from_json(file_name=self.fname)
+                    loaded = eao.serialization.load_from_json(file_name=self.fname_arg)
             except Exception as e:
                 exc = e
         for kk in list(d.fired):
